@@ -86,8 +86,43 @@ fn repeated(src: &str, stdin: &str) -> Result<(String, u32), String> {
     Ok((first, runs))
 }
 
+/// One fixed program shape (a branch, a function, a loop, each holding poetic and plain constants) with freshly drawn
+/// constants: consecutive programs occupy the same memory and the same positions, so anything remembered by address,
+/// position or shape from an earlier program (a cache that is never cleared) changes the output — but not in a fresh
+/// thread or process, where nothing has been remembered yet.
+fn same_shape(t: &mut Tape) -> Program {
+    let words = |t: &mut Tape| -> Vec<PoeticElem> {
+        (0..1 + t.pick(3)).map(|_| PoeticElem::Word((*t.choose(&["a", "an", "big", "love", "night", "desire", "without", "lovestruck", "heartbreak"])).to_string())).collect()
+    };
+    let (prize, cost, list, n, f, p) = (simple("prize"), simple("cost"), simple("list"), simple("n"), simple("Tester"), simple("dummy"));
+    let poetic = |dest: &Name, w: Vec<PoeticElem>| Stmt::PoeticNum { dest: Lhs::Ident(Ident::Name(dest.clone())), rhs: PoeticRhs::Literal(w) };
+    let s = vec![
+        poetic(&prize, words(t)),
+        say(var(&prize)),
+        Stmt::If { cond: lit(Lit::Bool(true)), then: vec![poetic(&prize, words(t)), say(var(&prize)), say(num(t.pick(1000) as f64)), say(strlit(["x", "yy", "zzz"][t.pick(3)]))], els: None },
+        Stmt::Function {
+            name: f.clone(),
+            params: vec![p.clone()],
+            body: vec![poetic(&cost, words(t)), Stmt::Push { array: pvar(&list), value: Some(PushRhs::Poetic(words(t))) }, say(Expr::Primary(Primary::Subscript(Box::new(pvar(&list)), Box::new(Primary::Lit(Lit::Num(0.0)))))), Stmt::Return { value: bin(BinOp::Plus, var(&cost), num(t.pick(50) as f64)) }],
+        },
+        say(Expr::Primary(Primary::Call(f.clone(), vec![num(1.0)]))),
+        put(num(0.0), &n),
+        Stmt::Until { cond: bin(BinOp::Eq, var(&n), num(2.0)), body: vec![Stmt::Inc { dest: Ident::Name(n.clone()), amount: 1 }, poetic(&cost, words(t)), say(bin(BinOp::Multiply, var(&cost), var(&n)))] },
+        say(Expr::Primary(Primary::Call(f, vec![num(2.0)]))),
+    ];
+    Program::single(s)
+}
+
 fn gen_one(t: &mut Tape) -> Case {
-    match t.weighted(&[60, 14, 14, 12]) {
+    match t.weighted(&[50, 11, 11, 10, 8, 4, 6]) {
+        6 => Case::One { src: render_canonical(&same_shape(t)), stdin: String::new(), dict_keys: 0 },
+        4 => {
+            // grammar programs: every statement kind at every depth (poetic literals inside loops, branches and functions):
+            // state kept between runs in one thread or process shows as a difference from a fresh thread / process
+            let p = engine_core::gen::syntax::SynGen::new(t, engine_core::gen::syntax::SynCfg::default()).program();
+            Case::One { src: render_canonical(&p), stdin: "1\n2\n".into(), dict_keys: 0 }
+        }
+        5 => Case::One { src: render_canonical(&engine_core::gen::lintprog::LintGen::new(t).program()), stdin: String::new(), dict_keys: 0 },
         0 => {
             let d = gen_dict_program(t);
             Case::One { src: render_canonical(&d.prog), stdin: String::new(), dict_keys: d.keys }
@@ -149,8 +184,8 @@ impl Prop for C10 {
     }
     fn rule(&self) -> String {
         "programs: 60% aimed at hash order (an array with 2-6 string/boolean/null/mysterious keys and 0-3 sequence elements, a copy built in reverse insertion order, then join with/without delimiter incl. a \
-         non-string element so that the error names one, print, equality and ordering of the two arrays, cut / index-by-array / rounding errors whose messages render the array), 40% general programs from the \
-         array-history, function and wild generators. Each (source, input) is parsed and executed 6 times in one thread (every new table gets a new hasher key) and in 2 fresh threads (fresh random keys); \
+         non-string element so that the error names one, print, equality and ordering of the two arrays, cut / index-by-array / rounding errors whose messages render the array), 46% general programs from the \
+         array-history, function, wild, grammar (every statement kind at every depth) and constant-assignment generators, plus one fixed program shape with freshly drawn constants (state remembered from an earlier program by address or position shows as a difference from a fresh thread / process). Each (source, input) is parsed and executed 6 times in one thread (every new table gets a new hasher key) and in 2 fresh threads (fresh random keys); \
          16 batches of 150 cases are additionally replayed in 2 fresh processes each. Output bytes, success/error and the rendered error text must be identical. \
          non-trivial = the program builds >= 2 dictionary entries in one array and then joins/prints/compares/errs on it; distinct by source+input"
             .into()
